@@ -1223,6 +1223,70 @@ theorem c16_src_SigPubKey (v : Val) (f : Frag) (he : sigPubKey.enc v = some f) (
     Src.SigPubKey false (f ++ k) = some (view_SigPubKey v, k) :=
   refines_SigPubKey.on_encoding v f he k
 
+/-- `AccStatusChange.deserialize`, regenerated from the source: on the spec encoding of ANY `AccStatusChange` value followed by ANY trailer it
+    returns every field with its encoded value (view `view_AccStatusChange`) and consumes exactly the encoded bits and refs. -/
+theorem c16_src_AccStatusChange (v : Val) (f : Frag) (he : accStatusChange.enc v = some f) (k : Frag) :
+    Src.AccStatusChange false (f ++ k) = some (view_AccStatusChange v, k) :=
+  refines_AccStatusChange.on_encoding v f he k
+
+/-- `ComputeSkipReason.deserialize`, regenerated from the source: on the spec encoding of ANY `ComputeSkipReason` value followed by ANY trailer it
+    returns every field with its encoded value (view `view_ComputeSkipReason`) and consumes exactly the encoded bits and refs. -/
+theorem c16_src_ComputeSkipReason (v : Val) (f : Frag) (he : computeSkipReason.enc v = some f) (k : Frag) :
+    Src.ComputeSkipReason false (f ++ k) = some (view_ComputeSkipReason v, k) :=
+  refines_ComputeSkipReason.on_encoding v f he k
+
+/-- `TrStoragePhase.deserialize`, regenerated from the source: on the spec encoding of ANY `TrStoragePhase` value followed by ANY trailer it
+    returns every field with its encoded value (view `view_TrStoragePhase`) and consumes exactly the encoded bits and refs. -/
+theorem c16_src_TrStoragePhase (v : Val) (f : Frag) (he : trStoragePhase.enc v = some f) (k : Frag) :
+    Src.TrStoragePhase false (f ++ k) = some (view_TrStoragePhase v, k) :=
+  refines_TrStoragePhase.on_encoding v f he k
+
+/-- `TrComputePhase.deserialize`, regenerated from the source: on the spec encoding of ANY `TrComputePhase` value followed by ANY trailer it
+    returns every field with its encoded value (view `view_TrComputePhase`) and consumes exactly the encoded bits and refs. -/
+theorem c16_src_TrComputePhase (v : Val) (f : Frag) (he : trComputePhase.enc v = some f) (k : Frag) :
+    Src.TrComputePhase false (f ++ k) = some (view_TrComputePhase v, k) :=
+  refines_TrComputePhase.on_encoding v f he k
+
+/-- `TrBouncePhase.deserialize`, regenerated from the source: on the spec encoding of ANY `TrBouncePhase` value followed by ANY trailer it
+    returns every field with its encoded value (view `view_TrBouncePhase`) and consumes exactly the encoded bits and refs. -/
+theorem c16_src_TrBouncePhase (v : Val) (f : Frag) (he : trBouncePhase.enc v = some f) (k : Frag) :
+    Src.TrBouncePhase false (f ++ k) = some (view_TrBouncePhase v, k) :=
+  refines_TrBouncePhase.on_encoding v f he k
+
+/-- `FutureSplitMerge.deserialize`, regenerated from the source: on the spec encoding of ANY `FutureSplitMerge` value followed by ANY trailer it
+    returns every field with its encoded value (view `view_FutureSplitMerge`) and consumes exactly the encoded bits and refs. -/
+theorem c16_src_FutureSplitMerge (v : Val) (f : Frag) (he : futureSplitMerge.enc v = some f) (k : Frag) :
+    Src.FutureSplitMerge false (f ++ k) = some (view_FutureSplitMerge v, k) :=
+  refines_FutureSplitMerge.on_encoding v f he k
+
+/-- `IntermediateAddress.deserialize`, regenerated from the source: on the spec encoding of ANY `IntermediateAddress` value followed by ANY trailer it
+    returns every field with its encoded value (view `view_IntermediateAddress`) and consumes exactly the encoded bits and refs. -/
+theorem c16_src_IntermediateAddress (v : Val) (f : Frag) (he : intermediateAddress.enc v = some f) (k : Frag) :
+    Src.IntermediateAddress false (f ++ k) = some (view_IntermediateAddress v, k) :=
+  refines_IntermediateAddress.on_encoding v f he k
+
+/-- `ValidatorDescr.deserialize`, regenerated from the source: on the spec encoding of ANY `ValidatorDescr` value followed by ANY trailer it
+    returns every field with its encoded value (view `view_ValidatorDescr`) and consumes exactly the encoded bits and refs. -/
+theorem c16_src_ValidatorDescr (v : Val) (f : Frag) (he : validatorDescr.enc v = some f) (k : Frag) :
+    Src.ValidatorDescr false (f ++ k) = some (view_ValidatorDescr v, k) :=
+  refines_ValidatorDescr.on_encoding v f he k
+
+/-- `CatchainConfig.deserialize`, regenerated from the source: on the spec encoding of ANY `CatchainConfig` value followed by ANY trailer it
+    returns every field with its encoded value (view `view_CatchainConfig`) and consumes exactly the encoded bits and refs. -/
+theorem c16_src_CatchainConfig (v : Val) (f : Frag) (he : catchainConfig.enc v = some f) (k : Frag) :
+    Src.CatchainConfig false (f ++ k) = some (view_CatchainConfig v, k) :=
+  refines_CatchainConfig.on_encoding v f he k
+
+/-- `BlkPrevInfo.deserialize(slice, after_merge)` regenerated from the source, `after_merge = 0` (`prev_blk_info$_`) -/
+theorem c16_src_BlkPrevInfo0 (v : Val) (f : Frag) (he : (blkPrevInfo 0).enc v = some f) (k : Frag) :
+    Src.BlkPrevInfo false (f ++ k) (.int 0) = some (view_BlkPrevInfo v, k) :=
+  refines_BlkPrevInfo0.on_encoding v f he k
+
+/-- `BlkPrevInfo.deserialize(slice, after_merge)` regenerated from the source, `after_merge = 1` (`prev_blks_info$_`, two references) -/
+theorem c16_src_BlkPrevInfo1 (v : Val) (f : Frag) (he : (blkPrevInfo 1).enc v = some f) (k : Frag) :
+    Src.BlkPrevInfo false (f ++ k) (.int 1) = some (view_BlkPrevInfo v, k) :=
+  refines_BlkPrevInfo1.on_encoding v f he k
+
 /-- non-vacuity: a concrete `TickTock` value is encodable, and the regenerated parser reads it back (with a 1-bit trailer) -/
 example :
     (tickTock.enc (.record [("tick", .bool true), ("tock", .bool false)])).isSome = true ∧
